@@ -401,20 +401,27 @@ class SshClient:
         self.cfg = cfg
         self.world = world
         self.n = n
+        self.k = n
+        self.out_idx = 0
+        self.done = False
         self.dec = wire.StreamDecoder()
+
+    def emit(self, sock, kind, data, perturbation=False):
+        return SshServer.emit(self, sock, kind, data, perturbation=perturbation)
 
     def on_connect(self, sock):
         cfg = self.cfg
         eol = cfg.get('eol', b'\r\n')
+        for line in cfg.get('prebanner', []):
+            self.emit(sock, 'prebanner', b(line) + eol)
         if cfg.get('banner') is not None:
-            sock.push(b(cfg['banner']) + eol)
+            self.emit(sock, 'banner', b(cfg['banner']) + eol)
         lists = full_lists(cfg.get('kexinit', DEFAULT_KEXINIT))
         payload = wire.build_kexinit(lists)
-        data = wire.frame(payload)
-        mut = cfg.get('mutate')
-        items = [data] if mut is None else mut(self.n, 'kexinit', 1, data)
-        for it in items:
-            sock.push(it)
+        for _ in range(cfg.get('debug', 0)):
+            dbg = bytes([MSG_DEBUG, 0]) + wire.string(b'debug message') + wire.string(b'')
+            self.emit(sock, 'debug', wire.frame(dbg), perturbation=True)
+        self.emit(sock, 'kexinit', wire.frame(payload))
 
     def on_data(self, sock, data):
         try:
